@@ -46,8 +46,10 @@ def main(tier, seed, prop=PROP):
         for src, pool in (("lengths", pool_len), ("bytes", pool_bytes), ("corpus", sorted(muts)), ("random", rnd)):
             for i in range(0, len(pool), 1500):
                 jobs.append((DG.w_host_list, (exe, pool[i:i + 1500], us, src, True)))
+    jobs[0:0] = DG.huge_jobs(cx.exe("plain-O2", san="plain-O2"), DG.huge_host_cases(tier))
     for part in core.pmap(_run, jobs):
         rep.merge(part)
+    rep.require(rep.counters.get("huge.strings", 0) > 0, "no 2 GiB input could be allocated")
     c = rep.counters
     evaluations = sum(v for kk, v in c.items() if kk.endswith(".accept") or kk.endswith(".reject"))
     rep.assumptions += ["the A-label form judged in mode 6531 is what libidn2 (same library, called directly by the driver) returns",
